@@ -137,7 +137,8 @@ package slip
 //@   on-call Unlock registered: !(old(has(obj.lambdas, name)) && old(obj.lambdas[name]) != nil) ==> (has(obj.lambdas, name) && obj.lambdas[name] == lam)
 //@   on-call Unlock funcinfo: has(obj.funcs, name) && obj.funcs[name] != nil && obj.funcs[name].Doc == lam.Doc && obj.funcs[name].Pkg == obj && obj.funcs[name].Kind == kind
 //@   on-call Unlock export-needs-exported-placeholder: (!(old(has(obj.funcs, name)) && old(obj.funcs[name]) != nil) && obj.funcs[name].Export) ==> (old(has(obj.vars, name)) && old(obj.vars[name]) != nil && old(obj.vars[name].Export))
-//@   on-call Unlock newly-exported-reaches-the-users: (!(old(has(obj.funcs, name)) && old(obj.funcs[name]) != nil) && obj.funcs[name].Export) ==> (forall j :: (0 <= j && j < len(obj.Users)) ==> obj.Users[j].funcs[name] != nil)
+//@   on-call shareFunc newly-exported-is-shared: $arg0 == name && $arg1 == obj.funcs[name] && $arg1.Export
+//@   on-call Unlock export-leads-to-sharing: (!(old(has(obj.funcs, name)) && old(obj.funcs[name]) != nil) && obj.funcs[name].Export) ==> exported == obj.funcs[name]
 //@   on-call Unlock other-lambdas-kept: forall n :: n != name ==> (has(obj.lambdas, n) == old(has(obj.lambdas, n)) && obj.lambdas[n] == old(obj.lambdas[n]))
 //@   on-call Unlock other-funcs-kept: forall n :: n != name ==> (has(obj.funcs, n) == old(has(obj.funcs, n)) && obj.funcs[n] == old(obj.funcs[n]))
 
@@ -202,6 +203,13 @@ package slip
 //@   property C13
 //@   on-store Val visible-and-not-constant: (vv.Export || CurrentPackage == obj || private) && !vv.Const && vv == obj.vars[name]
 //@   on-map-update vars users-get-the-same-cell: $value == vv && $key == name && $was == nil
+
+// an exported function becomes visible in every using package that has no
+// function of that name yet (a user's own definition is never replaced).
+//@ func slip.(*Package).shareFunc
+//@   property C13
+//@   full-loop rangeindex
+//@   on-map-update funcs only-where-absent: $was == nil && $key == name && $value == fi
 
 // function lookup: what is found comes from the table of the package that was
 // asked, under the unpacked name, and is visible from where the lookup is made
